@@ -2,6 +2,7 @@
 from __future__ import annotations
 
 import copy
+import re
 
 import gen
 import impl
@@ -94,6 +95,18 @@ def gen_cases(ctx: Ctx, ntrees: int) -> list[dict]:
         for q in qs:
             if q and not any(c in q for c in r".^$*+?{}[]\|()"):
                 cases.append({"kind": "find", "t": te, "q": q})
+        # the query is a regular expression: anchored to tell `run1` from `run17`, escaped literal text with backslashes,
+        # line breaks and quotes (oracle only: the model instantiates the search with substring search)
+        for x in rng.sample(lv, min(2, len(lv))):
+            sx = str(x)
+            cases.append({"kind": "findre", "t": te, "q": "^" + re.escape(sx) + "$"})
+            if len(sx) > 1:
+                cases.append({"kind": "findre", "t": te, "q": "^" + re.escape(sx[:-1]) + "$"})
+    for _ in range(max(1, ntrees // 10)):
+        t = {"case": {"name": "run1", "other": "run17", "dir": "C:\\temp\\data", "deep": {"n": 20, "m": 200, "txt": "two\nlines\tand a tab", "q": "it's \"both\""}},
+             "list": [["run17", {"k": "run1"}], 20], "top": "run1x"}
+        for q in ["^run1$", "^20$", re.escape("C:\\temp\\data"), "^" + re.escape("two\nlines\tand a tab") + "$", re.escape("it's \"both\""), "^run$", "n1$", "^2+0$"]:
+            cases.append({"kind": "findre", "t": enc(t), "q": q})
     # deep paths around the 10-level limit of set_global_key
     for depth in (9, 10, 11, 12):
         t = cur = {}
@@ -257,6 +270,26 @@ def process(ctx: Ctx, cases: list[dict]) -> None:
             ctx.tag("find:" + ("none" if r is None else "hit"))
             if m is not None and m != rj:
                 ctx.disagree("find_global_key", c, m, rj)
+        elif k == "findre":
+            q = c["q"]
+            try:
+                r = find_global_key(copy.deepcopy(t), q)
+            except Exception as e:  # noqa: BLE001
+                ctx.violation("find_global_key raises", c, repr(e), "path or None"); continue
+            lv = []
+            _leaves(t, lv)
+            anym = any(re.search(q, str(x)) for x in lv)
+            ctx.tag("findre:" + ("none" if r is None else "hit"))
+            if r is None:
+                if anym:
+                    ctx.violation("find_global_key found nothing although a leaf matches the query", c, None, "a path")
+            else:
+                try:
+                    x = _deref(t, r)
+                    if isinstance(x, (dict, list)) or not re.search(q, str(x)):
+                        ctx.violation("find_global_key returned a path to a non-matching element", c, [enc_key(k) for k in r], "matching leaf")
+                except Exception:  # noqa: BLE001
+                    ctx.violation("find_global_key returned a path that does not exist", c, [enc_key(k) for k in r], "valid path")
         elif k == "reduce":
             s = SDict(copy.deepcopy(t))
             try:
